@@ -261,7 +261,17 @@ class SymExec:
             lv = vds[0].get("name") if vds else None
         elif init is not None and init.get("kind") == "BinaryOperator" and init.get("opcode") == "=":
             lv = C.ref_name(C.kids(init)[0])
-        if lv is not None and lv in self.symbolic_loops:
+        symbolic = lv is not None and lv in self.symbolic_loops
+        if lv is not None and not symbolic and "*" in self.symbolic_loops and cond is not None:
+            # "*": every loop whose bound is not a constant iterates over a symbolic value of its variable, whatever the variable is called
+            try:
+                probe = st.fork()
+                if init is not None:
+                    self.stmt(init, probe)
+                symbolic = self.cond_const(cond, probe) is None
+            except Unsupported:
+                symbolic = True
+        if symbolic:
             self.loops_seen.append((lv, re.sub(r"\s", "", C.text(init)), re.sub(r"\s", "", C.text(cond)) if cond else ""))
             st.env[self._k(lv)] = Rat(Poly.var(lv))
             res = []
